@@ -20,13 +20,13 @@ import (
 // are part of the thorough tier and of the self-test: they show that the equivalence check is not vacuous.
 
 type lookupGen struct {
-	Pool   []string
-	Paths  []string
-	Hosts  []string // request hosts; only the first one is used for tables without hostname patterns
-	MaxTab int
-	EnumN  int     // the first EnumN patterns of the pool are combined exhaustively
-	Extra  [][]int // tables larger than MaxTab, as 1-based pool indices
-	Fixes  []string
+	Pool    []string
+	Paths   []string
+	Hosts   []string // request hosts; only the first one is used for tables without hostname patterns
+	MaxTab  int
+	EnumN   int     // the first EnumN patterns of the pool are combined exhaustively
+	Extra   [][]int // tables larger than MaxTab, as 1-based pool indices
+	Fixes   []string
 	Collect bool // witness collection: every disagreement is reported instead of stopping at the first
 }
 
